@@ -322,6 +322,9 @@ DECODER_CASES = {
     "dec:prcaps": ["prcaps", {"ptpl_c": 1, "tmv": 1, "allow_commands": 2}, {"wr_ex": 1, "ex_ac_ar": 1}, 0],
     "dec:getlbastatus": ["getlbastatus", [{"lba": 5, "num_blocks": 8, "p_status": 1}], 0],
     "dec:readcd": ["readcd", 4, 0x1F, 1, 2, 0x100, 2, 0],
+    "dec:readcd_m1": ["readcd", 2, 0x1E, 0, 0, 0x100, 2, 0],         # Mode 1, all headers selected (mapped: no sub-header)
+    "dec:readcd_m2": ["readcd", 3, 0x0C, 0, 2, 0x200, 1, 0],         # Mode 2 formless, all headers only
+    "dec:readcd_m1s": ["readcd", 2, 0x08, 2, 0, 0, 1, 0],            # Mode 1, sub-header only (nothing of the main channel)
 }
 THREAD_DECODERS = ["dec:inquiry_std", "dec:vpd83", "dec:mode10", "dec:reportluns", "dec:rtpg", "dec:prfull", "dec:res", "dec:sense"]
 
